@@ -263,6 +263,29 @@ def run(ctx):
         ctx.check("helicity build->cal_angle->find_variable roundtrip", names_ok and worst < 1 and dcos < 1 and dphi < 1,
                   lambda: dict(desc, mass_dev_over_tol=worst, cos_dev_over_tol=dcos, phi_dev_over_tol=dphi, names_ok=names_ok, max_gamma=float(np.max(gam))),
                   mechanism="helicity roundtrip")
+        # (c) the same extraction when the chain is one of several topologies of a decay group (as in a multi-chain configuration):
+        # sub-decays such as (f0, f1) -> f0 f1 are then shared by topologies with different ancestry
+        if n >= 4:
+            try:
+                from tf_pwa.cal_angle import DecayGroup as _DG
+                from tf_pwa.cal_angle import cal_angle_from_momentum as _cafm
+
+                pick = [int(j_) for j_ in rng.choice(len(shapes[n]), size=min(5, len(shapes[n])), replace=False) if int(j_) != k][:4]
+                group = [AmpChain([get_decay(P(core), [P(x) for x in outs]) for core, outs in shapes[n][j_]]) for j_ in pick]
+                pos = int(rng.integers(0, len(group) + 1))
+                group.insert(pos, chain)
+                dat_g = _cafm(p4, _DG(group))
+                ms3, cos3, phi3 = ha.find_variable(dat_g)
+                worst3 = max(np.max(np.abs(np.asarray(v_) ** 2 - ms[k_] ** 2) / ms[topP] ** 2 / tol_e) for k_, v_ in ms3.items())
+                dcos3 = max(np.max(np.abs(np.asarray(c2) - c1) / tol_e) for c1, c2 in zip(cos_in, cos3))
+                dphi3 = max(np.max(np.abs(np.angle(np.exp(1j * (np.asarray(f2) - f1)))) * np.sqrt(1 - c1 * c1) / tol_e) for c1, f1, f2 in zip(cos_in, phi_in, phi3))
+                ctx.check("helicity build->cal_angle->find_variable roundtrip", worst3 < 1 and dcos3 < 1 and dphi3 < 1,
+                          lambda: dict(desc, group_size=len(group), position_in_group=pos, other_topologies=[shapes[n][j_] for j_ in pick],
+                                       mass_dev_over_tol=worst3, cos_dev_over_tol=dcos3, phi_dev_over_tol=dphi3),
+                          mechanism="helicity roundtrip (chain inside a group of several topologies)")
+                ctx.covered("roundtrip_in_group_position", "first" if pos == 0 else "later")
+            except Exception as e:
+                ctx.violation("helicity build->cal_angle->find_variable roundtrip", ctx.exc_witness(e, **desc), mechanism="helicity roundtrip raises (group of several topologies)")
         ctx.case(("hel", n, k, i), nontrivial=True)
         ctx.covered("n_finals_roundtrip", n)
         ctx.covered("shape_%d" % n, k)
